@@ -1613,6 +1613,17 @@ class IndexHierarchy(IndexBase):
             if levels.targets is None: # fall back to 1D index
                 return levels.index.rename(name)
 
+            # the remaining levels are shorter than before: re-base the offset of every target on the lengths of its preceding siblings
+            levels_stack = [levels]
+            while levels_stack:
+                level = levels_stack.pop()
+                if level.targets is not None:
+                    offset = 0
+                    for target in level.targets:
+                        target.offset = offset
+                        offset += target.__len__()
+                        levels_stack.append(target)
+
             # if we have TypeBlocks and levels is the same length
             if not self._recache and levels.__len__() == self.__len__():
                 blocks = self._blocks.iloc[NULL_SLICE, :count]
